@@ -124,6 +124,12 @@ impl Story {
                 && duration_stopwatch.as_ref().unwrap().elapsed().as_millis() as f32
                     > millisecs_limit_async
             {
+                #[cfg(feature = "verif-hooks")]
+                crate::verif::probe(if self.state_snapshot_at_last_new_line.is_some() {
+                    "async_pause_with_snapshot"
+                } else {
+                    "async_pause"
+                });
                 break;
             }
 
@@ -309,6 +315,8 @@ impl Story {
                 // Newline that previously existed is no longer valid - e.g.
                 // glue was encounted that caused it to be removed.
                 else if change == OutputStateChange::NewlineRemoved {
+                    #[cfg(feature = "verif-hooks")]
+                    crate::verif::probe("snapshot_discarded_glue");
                     self.state_snapshot_at_last_new_line = None;
                     self.discard_snapshot();
                 }
@@ -333,6 +341,10 @@ impl Story {
                 // Can't continue, so we're about to exit - make sure we
                 // don't have an old state hanging around.
                 else {
+                    #[cfg(feature = "verif-hooks")]
+                    if self.state_snapshot_at_last_new_line.is_some() {
+                        crate::verif::probe("snapshot_discarded_end");
+                    }
                     self.discard_snapshot();
                 }
             }
@@ -342,6 +354,9 @@ impl Story {
     }
 
     pub(crate) fn step(&mut self) -> Result<(), StoryError> {
+        #[cfg(feature = "verif-hooks")]
+        crate::verif::burn_fuel()?;
+
         let mut should_add_to_stream = true;
 
         // Get current content
